@@ -216,6 +216,10 @@ func (r *SparseIntMatrix) MdotM(a, b ConstMatrix) Matrix {
     panic("result and argument must be different matrices")
   }
   t1 := NullScalar(r.ElementType())
+  // the products are accumulated in r
+  for it := r.Iterator(); it.Ok(); it.Next() {
+    it.Get().Reset()
+  }
   for it := a.ConstIterator(); it.Ok(); it.Next() {
     i, j := it.Index()
     for is := b.ConstIteratorFrom(j, 0); is.Ok(); is.Next() {
